@@ -12,6 +12,7 @@ fn main() {
     let args = util::Args::parse(&argv[2..]);
     match argv[1].as_str() {
         "partition" => pure::partition(&args),
+        "partition-big" => pure::partition_big(&args),
         c => {
             eprintln!("unknown command {}", c);
             std::process::exit(2);
